@@ -76,8 +76,17 @@ def judge(specs, obs):
 
 
 def run_one(ctx, ccube, specs, mode):
+    """Observe the real cube through `mode` (the literal compared in Coq and judged by the oracle) AND through the
+    two other observation points; all three must deliver the same sequence (same order, same row ids)."""
     dims = [cubelib.build_dim(s) for s in specs]
     obs, err = observe(ccube, dims, mode)
+    for other in ("interactions", "walk1", "walk2"):
+        if other != mode and not err:
+            o2, e2 = observe(ccube, dims, other)
+            if e2:
+                err = e2
+            elif o2 != obs:
+                err = "%s and %s deliver different sequences: %r vs %r" % (mode, other, obs[:6], o2[:6])
     N = len(specs[0]["arr"])
     lit = "(%s, %s, [%s])" % (core.zlit(N), cubelib.dims_lit(dims), "; ".join(cubelib.em_lit(c, r) for c, r in obs))
     bad = judge(specs, obs)
@@ -90,7 +99,8 @@ def run(ctx):
     thorough = ctx.tier == "thorough"
     ctx.rule = ("random: 1-4 one-axis iindex dimensions (from_array or constructor with shuffled dict order), N in 0..8, "
                 "1-4 categories from pools incl. 255/256/65535/65536, common most-frequent/rare/absent, observed through "
-                "interactions(), walk(f) and walk([f,g]); exhaustive: every dictionary structure over 3 rows x 3 uncommon "
+                "interactions(), walk(f) and walk([f,g]) (every case through all three, which must deliver identical sequences; "
+                "the literal compared in Coq rotates over them); exhaustive: every dictionary structure over 3 rows x 3 uncommon "
                 "categories for 1 and 2 dimensions (quick) and 3 dimensions (thorough); a case is distinct per "
                 "(dims literal, observation mode) and non-trivial when at least one pair is delivered")
     ctx.trusted = list(core.STD_TRUSTED) + [
